@@ -45,6 +45,9 @@ where
 }
 
 fn format_spectrum<S: State>(spectrum: &Spectrum<S>, sep: &str, precision: usize) -> String {
+    // The formatting machinery panics on a precision beyond u16::MAX
+    let precision = precision.min(usize::from(u16::MAX));
+
     if let Some(first) = spectrum.array.as_slice().first() {
         let mut init = String::new();
         write!(init, "{first:.precision$}").unwrap();
